@@ -13,6 +13,10 @@ def units(tier, seed):
     us = cases.wf_units(tier, seed)
     for u in us:
         u["seed"] = seed
+    # every frame and stream once more under a non-default root path (an argument of the decoder's API)
+    for u in list(us):
+        if u["kind"] in ("command", "response", "stream"):
+            us.append(dict(u, k=0, root_path="log.entry[3]", label=u["label"] + "@root"))
     # model validation on real traffic: the bundled captures, message by message
     import glob
     import os
@@ -54,7 +58,10 @@ def check_case(acc, case):
         fd = first_diff(ref.events, case.intent)
         acc.violation({"clause": "model-self-check", "root": case.root, "ref_kind": ref.kind}, d, f"generator intent and reference decoder disagree (MODEL problem, not the implementation): {ref.kind} {ref.details} {fd}")
         return
-    r = impl.run(case.root, case.b, cc=case.cc, enc=case.enc, strict=True)
+    rp = (case.unit or {}).get("root_path") if hasattr(case, "unit") else None
+    if rp:
+        d["root_path"] = rp
+    r = impl.run(case.root, case.b, cc=case.cc, enc=case.enc, strict=True, root_path=rp)
     acc.count("outcome:" + r.kind)
     acc.shape((case.root, shape(ref.events)))
     if r.kind != "Done":
@@ -148,6 +155,7 @@ def finish(acc, tier, seed):
 def replay(case):
     acc = Acc()
     c = cases.Case(case["root"], bytes.fromhex(case["input"]), case.get("cc"), case.get("enc"))
+    c.unit = {"root_path": case.get("root_path")}
     from ..ref.decode import decode
 
     r = decode(c.root, c.b, cc=c.cc, enc=c.enc)
